@@ -120,3 +120,8 @@ PROPS = {
         'assumptions': ['float64 arithmetic of statistic tails modelled as exact real arithmetic; erfc/igamc/log uninterpreted (congruence + Lipschitz bridge 1e-9 on arguments)'],
     },
 }
+
+NOT_APPLICABLE = {
+    'C06': 'accuracy of a binary64 power-series / continued-fraction implementation of Q(a,x) with log/exp/lgamma: transcendental floating point with convergence-dependent trip counts is outside what z3/cvc5 can decide; as uninterpreted functions they carry no accuracy information (DESIGN.md 5/C06)',
+    'C14': 'end-to-end over 10^6-bit samples: needs a 125000-byte symbolic-index histogram loop and the numeric value of igamc(127.5, x); both outside solver reach, and assuming either would assume the conclusion (DESIGN.md 5/C14)',
+}
